@@ -5,10 +5,10 @@ import json, os, sys
 
 HERE = os.path.dirname(os.path.dirname(os.path.abspath(__file__)))
 
-NOTE = ("go/types + go/ssa (x/tools v0.29.0, used from the local copy checker/third_party/xtools with three added files) "
+NOTE = ("go/types + go/ssa (x/tools v0.29.0, used from the local copy checker/third_party/xtools with five added files) "
         "model the program faithfully; the behaviour-preserving normalisation of the SSA the rules read (helper folding "
         "against a reference table, rename resolution, canonical spellings, lifting of read-only captured variables, "
-        "capture by value, unrolling of loops over small literal tables, scalar replacement of local structs, argument promotion, constant folding; DESIGN.md section 2a) is part "
+        "capture by value, unrolling of loops over small literal tables, scalar replacement of local structs, argument promotion, lowering of result-watching deferred literals, threading of && conditions, constant folding; DESIGN.md section 2a) is part "
         "of the trusted base; documented semantics of the Go "
         "standard library, net/http, crypto/tls, os/exec, text/template and the module's dependencies; one build "
         "configuration (linux/amd64; the module has no build-tagged files). The check decides the named structural "
